@@ -28,6 +28,10 @@ TEMPLATES = {
     "use-depth2": "lambda e: e.jets.Select(lambda j: j.tr.Select(lambda t: (t.q, {N})))",
     "use-in-comp": "lambda e: [(j.pt, {N}) for j in e.jets if j.pt > 0]",
     "use-twice": "lambda e: ({N}, e.jets.Where(lambda j: j.pt > 1).Select(lambda j: ({N}, j.eta)))",
+    "use-in-pycall-arg": "lambda e: (fmod.pair((e.a, {N})), 1)",
+    "use-in-pycall-kw": "lambda e: (fmod.pair(e.a, k={N}), 1)",
+    "use-in-pycall-nested": "lambda e: e.jets.Select(lambda j: fmod.pair(j.pt, {N}))",
+    "use-in-builtin-arg": "lambda e: (len([e.a, {N}]), e.a)",
     "own-param": "lambda {B}: ({B}.a, 1)",
     "own-param-bare-in-nested": "lambda {B}: {B}.jets.Select(lambda j2: (j2.pt, {B}))",
     "own-param-bare-depth2": "lambda {B}: {B}.jets.Select(lambda j2: j2.tr.Select(lambda t2: (t2.q, {B})))",
@@ -77,6 +81,16 @@ def module_for(source, template, name, value, op="Select"):
     return head + body, lam
 
 
+def _fmod():
+    "an imported module with a real Python function: calls to it stay calls by name, their arguments are still frozen"
+    m = sys.modules.get("fadlmc_c04_fmod")
+    if m is None:
+        m = types.ModuleType("fadlmc_c04_fmod")
+        exec("def pair(x, k=0):\n    return (x, k)\n", m.__dict__)
+        sys.modules["fadlmc_c04_fmod"] = m
+    return m
+
+
 def load_module(text, value, name):
     _N[0] += 1
     fn = f"<c04mod{_N[0]}>"
@@ -84,7 +98,7 @@ def load_module(text, value, name):
     cmod = types.ModuleType("fadlmc_c04_cmod")
     setattr(cmod, name, value)
     sys.modules["fadlmc_c04_cmod"] = cmod
-    g = {"VALUE": value, "len": len, "list": list}
+    g = {"VALUE": value, "len": len, "list": list, "fmod": _fmod()}
     exec(compile(text, fn, "exec"), g)
     return g, fn
 
@@ -94,7 +108,7 @@ class C04(Check):
     title = "Captured variables are frozen by value at the call, respecting scope"
     state_based = False
     rule = ("(A) every combination of capture source (closure cell, module global, class constant, nested class "
-            "constant, attribute of an imported module) x 16 lambda shapes (free use at depth 0/1/2, inside a "
+            "constant, attribute of an imported module) x 20 lambda shapes (free use at depth 0/1/2, inside the positional / keyword arguments of a call to an imported module's Python function or a builtin, inside a "
             "comprehension, twice; the same spelling bound as the lambda's own parameter, a nested lambda's "
             "parameter at depth 1 and 2, a comprehension / generator target with and without filter, bound in one "
             "sub-expression and free in another, as a keyword-argument name, as an attribute name) x 14 values "
@@ -195,11 +209,11 @@ class C04(Check):
                     dict(g, **({name: value} if source in ("closure", "closure-over-global") else {}), cmod=sys.modules["fadlmc_c04_cmod"]))
         try:
             fq = refsem.compile_query(ast.Call(ast.Name("Select", ast.Load()), [ast.Name("ds", ast.Load()), emitted], []),
-                                      extra_env={"list": list})
+                                      extra_env={"list": list, "fmod": _fmod()})
         except Exception as e:
             res["viol"].append({"kind": "emitted-lambda-uncompilable", "canon": canon, "msg": str(e)[:150]})
             return res
-        free = refsem.free_names(emitted) - {"len", "list"}
+        free = refsem.free_names(emitted) - {"len", "list", "fmod"}
         if free:
             res["oc"].append("unfrozen")
             res["viol"].append({"kind": "name-left-unfrozen", "canon": canon,
